@@ -192,7 +192,7 @@ def code_of(test_case) -> str:
 
 
 # =============================================================================== F-tape
-RANGE = 1000  # a tape cell is an int in [0, RANGE); random() == cell / RANGE
+RANGE = 1000  # a tape cell is any int, used modulo RANGE; random() == (cell % RANGE) / RANGE
 TAILS = (500, 120, 930)  # draw returned after the explicit cells are used up (selector ``tail``)
 GAUSS = (0.0, -1.2e-06, 0.4, -1.0, 2.5, -3.75, 0.001, -0.26)
 BYTE_DRAWS = (0x00, 0x27, 0x5C, 0x0A, 0xFF, 0x22, 0x61, 0x80)
@@ -202,15 +202,17 @@ FULL = 16  # ranges up to this width are enumerated completely, wider ones throu
 
 class Tape(random.Random):
     """``randomness.RNG`` replacement.  Every primitive draw pops one explicit int in [0, RANGE)
-    (symbolic under CrossHair); after the explicit cells are used up every draw is ``tail``.
+    (symbolic under CrossHair); after the explicit cells are used up every draw is ``tail``.  With
+    ``skip`` > 0 the first draw is cell 0, the next ``skip`` draws are ``tail`` and cells 1.. follow.
     ``random()`` is ``cell / RANGE`` and stays symbolic, so the probability comparisons of the real
     code fork the path; draws that index a table or produce a literal value fork into concrete
     values.  Each result is one a real ``random.Random`` could return."""
 
-    def __init__(self, cells, tail=500):
+    def __init__(self, cells, tail=500, skip=0):
         super().__init__(0)
         self._cells = list(cells)
         self._tail = tail
+        self._skip = skip  # draws 1..skip return ``tail``: the explicit cells 1.. sit ``skip`` draws deeper
         self.used = 0
 
     def seed(self, a=None, version=2):  # noqa: ARG002
@@ -228,8 +230,13 @@ class Tape(random.Random):
     def _pop(self):
         i = self.used
         self.used += 1
-        if i < len(self._cells):
-            return self._cells[i]
+        if i == 0:
+            return self._cells[0] % RANGE if self._cells else self._tail
+        if i <= self._skip:
+            return self._tail
+        j = i - self._skip
+        if j < len(self._cells):
+            return self._cells[j] % RANGE
         return self._tail
 
     def random(self):
@@ -308,8 +315,8 @@ class Tape(random.Random):
         return pick(BYTE_DRAWS, self._pop() % 8) & ((1 << k) - 1)
 
 
-def install_tape(cells, tail_sel=0) -> Tape:
-    tape = Tape(cells, pick(TAILS, tail_sel))
+def install_tape(cells, tail_sel=0, skip=0) -> Tape:
+    tape = Tape(cells, pick(TAILS, tail_sel), skip)
     randomness.RNG = tape
     return tape
 
@@ -363,10 +370,10 @@ BASE_SHAPES = (
     (".front",),
     ("total_of(values = var_", "= [var_"),
     (".tags",),
-    ("lambda",),
+    ("wrap(", "= var_1("),
     ("Cart(wheel = var_", ".add(item = var_"),
-    (".paint(color = var_", "Color."),
-    ("scale(cart = var_", "factor = var_"),
+    ("spread(var_", "*var_"),
+    ("lookup(table = var_", "': "),
 )
 
 
